@@ -37,6 +37,7 @@ func main() {
 		crash := fs.String("crashprop", "", "property blamed for process death")
 		max := fs.Int("max", 0, "stop after this many cases (0 = all)")
 		opts := fs.String("opts", "", "k=v,k=v passed to workers")
+		recs := fs.String("records", "", "write the records produced by recorder families here (ndjson)")
 		fs.Parse(os.Args[2:])
 		in := os.Stdin
 		if *inp != "" {
@@ -51,7 +52,7 @@ func main() {
 		if cp == "" {
 			cp = strings.Split(*props, ",")[0]
 		}
-		sum := dispatch(in, *logp, []string{"-worker", "-props", *props, "-opts", *opts}, *nw, *bs, cp, *max)
+		sum := dispatch(in, *logp, []string{"-worker", "-props", *props, "-opts", *opts}, *nw, *bs, cp, *max, *recs)
 		b, _ := json.MarshalIndent(sum, "", " ")
 		if *outp != "" {
 			os.WriteFile(*outp, b, 0o644)
